@@ -247,6 +247,19 @@ func runOutputCase(tw *TraceWriter, id int, p OutParams, variant int, scratch st
 	if p.Entry == "File.Save" {
 		after = fsState(target, expected)
 	}
+	// canary: after the call under test (failed or not) an unrelated valid fragment and an unrelated valid File
+	// must still render exactly as they always do (no state of a failed render leaks into later renders)
+	canary := true
+	for k := 0; k < 3; k++ {
+		var b1, b2 bytes.Buffer
+		e1 := jen.Id("canary").Op(":=").Lit(k).Render(&b1)
+		cf := jen.NewFile("main")
+		cf.Var().Id("canary").Op("=").Lit(k)
+		e2 := cf.Render(&b2)
+		if e1 != nil || e2 != nil || b1.String() != fmt.Sprintf("canary := %d", k) || b2.String() != fmt.Sprintf("package main\n\nvar canary = %d\n", k) {
+			canary = false
+		}
+	}
 	wroteErr := false
 	okbytes := 0
 	for _, c := range w.calls {
@@ -263,7 +276,7 @@ func runOutputCase(tw *TraceWriter, id int, p OutParams, variant int, scratch st
 	tw.Emit(Rec{"ev": "out", "id": id, "p": p, "fmtok": fmtok, "status": status, "sameerr": sameErr,
 		"writes": calls, "ncalls": len(calls), "wroteerr": wroteErr,
 		"goteq": bytes.Equal(w.buf.Bytes(), expected), "gotlen": okbytes, "explen": len(expected),
-		"before": before, "after": after, "twin": twinStatus})
+		"before": before, "after": after, "twin": twinStatus, "canary": canary})
 	tw.Distinct("fault_placements", fmt.Sprint(p))
 	tw.Distinct("placements_x_trees", fmt.Sprint(p, variant))
 	if id <= 3 {
